@@ -128,6 +128,14 @@ def run(ctx):
             nested = [["top", True], ["top/in", True]] + [["top/in/" + f, False] for f in names]
             tcases.append({"op": "glob", "tree": nested, "patterns": ["top/in/*", "t*/i*/*.txt", "top/*/f*"], "absolute": n % 2 == 1})
             tmeta.append((sorted("top/in/" + f for f in names), nested, ["top/in/*", "t*/i*/*.txt", "top/*/f*"], n % 2 == 1))
+    # sibling directories in which matching and non-matching names alternate in sorted order, under directory segments with one, two and three stars
+    alt_dirs = ["a", "b", "ca", "d", "ea", "ab", "ba", "bab", "c.a", "aXa"]
+    alt_entries = [[d, True] for d in alt_dirs] + [[d + "/f", False] for d in alt_dirs] + [[d + "/g.txt", False] for d in alt_dirs[::2]]
+    alt_files = sorted([d + "/f" for d in alt_dirs] + [d + "/g.txt" for d in alt_dirs[::2]])
+    alt_pats = ["*a*/f", "a*/f", "*a/f", "*a*a*/f", "a*b*/f", "*/f", "*b*/*", "*a*/*.txt", "a*a/f", "*.*/f", "b*/g.txt", "*a*/g*"]
+    for ab in (False, True):
+        tcases.append({"op": "glob", "tree": alt_entries, "patterns": alt_pats, "absolute": ab})
+        tmeta.append((alt_files, alt_entries, alt_pats, ab))
     tres = vh.run_cases(tcases, shards=8)
     tl = ["(t%d glob %s (%s))" % (i, tree_sexp(m[1]), " ".join("h" + p.encode().hex() for p in m[2])) for i, m in enumerate(tmeta)]
     tm = model.run_model(tl, shards=8)
